@@ -21,7 +21,9 @@ CASE_TIMEOUT = 900
 BATCH_SIZE = {'quick': 1, 'thorough': 1}
 REQUIRED_COUNTERS = ['serial_transposes', 'parallel_transposes',
                      'slice_transposes', 'no_data_transposes',
-                     'file_ops_checked', 'multi_pass_transposes']
+                     'file_ops_checked', 'multi_pass_transposes',
+                     'matrices_with_an_axis_beyond_uint8_and_few_entries',
+                     'matrices_with_an_axis_beyond_uint16']
 EXHAUSTIVE = {'quick': False, 'thorough': True}
 RULE = ('core routines (transpose_sparse_matrix_on_disk with / without '
         'value array and every indices_slice sub-range, csc_to_csr_on_disk, '
@@ -351,8 +353,33 @@ def run_patterns(spec, work, ctx):
             break
 
 
+def boundary_sparse(rng):
+    """
+    tall / wide, very sparse matrices whose axis lengths straddle the
+    unsigned 8 and 16 bit limits while the number of stored entries and the
+    other axis stay below them (index arrays sized from the wrong quantity
+    would saturate)
+    """
+    big = int(rng.choice([256, 257, 300, 400, 65536, 65537, 65600]))
+    small = int(rng.integers(2, 41 if big < 1000 else 6))
+    nnz = int(rng.integers(1, 200 if big < 1000 else 120))
+    rows = rng.integers(0, big, size=nnz)
+    rows[0] = big - 1                     # an entry beyond the limit
+    if nnz > 1:
+        rows[1] = int(rng.integers(max(0, big - 40), big))
+    cols = rng.integers(0, small, size=nnz)
+    dtype = str(rng.choice(['float32', 'float64', 'int32', 'int64']))
+    M = np.zeros((big, small), dtype=dtype)
+    M[rows, cols] = (np.arange(1, nnz + 1)).astype(dtype)
+    if rng.random() < 0.5:
+        M = np.ascontiguousarray(M.T)
+    return M
+
+
 def random_sparse(rng, max_dim=300):
-    kind = int(rng.integers(0, 6))
+    kind = int(rng.integers(0, 8))
+    if kind >= 6:
+        return boundary_sparse(rng)
     shape = (int(rng.integers(1, max_dim + 1)),
              int(rng.integers(1, max_dim + 1)))
     if kind == 0:
@@ -388,6 +415,11 @@ def run_random(spec, work, ctx):
     for _ in range(spec['n']):
         M = random_sparse(rng)
         ctx.features.add((M.shape, int((M != 0).sum()), 'random'))
+        if max(M.shape) > 255 and int((M != 0).sum()) <= 255 and \
+                min(M.shape) < 255:
+            ctx.bump('matrices_with_an_axis_beyond_uint8_and_few_entries')
+        if max(M.shape) > 65535:
+            ctx.bump('matrices_with_an_axis_beyond_uint16')
         run_core(ctx, M, work, rng, budgets=[1e-9, 1.0], all_slices=False,
                  shuffle=bool(rng.random() < 0.5), do_parallel=True)
         if len(ctx.viol) >= 10:
